@@ -2,6 +2,7 @@ import TangeloModel.Measure
 import TangeloProofs.CycRing
 import TangeloProofs.CycLaws
 import TangeloProofs.Lemmas.Adjoint
+import TangeloProofs.Lemmas.HalfPi
 import Mathlib.Tactic.Ring
 import Mathlib.Tactic.LinearCombination
 import Mathlib.Tactic.NormNum
@@ -104,45 +105,6 @@ theorem meas_basis_table_correct : measBasisOk = true := by decide +kernel
 section routes
 open Finset
 variable {S : Type} [CommRing S] [StarRing S]
-
-/-- e(π/2) = (1+i)/√2 -/
-def HalfPi (k : Consts S) : Prop := k.e (Ang.piQuarter 2) = (1 + k.i) * k.rsqrt2
-
-theorem e_neg_half_pi (k : Consts S) (L : k.Laws) (hp : HalfPi k) : k.e (-Ang.piQuarter 2) = (1 - k.i) * k.rsqrt2 := by
-  have h := L.e_neg_mul (Ang.piQuarter 2)
-  rw [hp] at h
-  have hr := L.rsqrt2_sq
-  have hi := L.i_sq
-  linear_combination ((1 - k.i) * k.rsqrt2) * h - k.e (-Ang.piQuarter 2) * hr
-    + (k.e (-Ang.piQuarter 2) * (k.rsqrt2 * k.rsqrt2)) * hi
-
-theorem cos_half_pi (k : Consts S) (L : k.Laws) (hp : HalfPi k) : k.cosH (Ang.piQuarter 2) = k.rsqrt2 := by
-  have hn := e_neg_half_pi k L hp
-  unfold HalfPi at hp
-  simp only [Consts.cosH]
-  linear_combination k.half * hp + k.half * hn + k.rsqrt2 * L.two_half
-
-theorem misin_half_pi (k : Consts S) (L : k.Laws) (hp : HalfPi k) : k.misinH (Ang.piQuarter 2) = -(k.i * k.rsqrt2) := by
-  have hn := e_neg_half_pi k L hp
-  unfold HalfPi at hp
-  simp only [Consts.misinH]
-  linear_combination k.half * hn - k.half * hp - (k.i * k.rsqrt2) * L.two_half
-
-theorem neg_quarter : Ang.piQuarter (-2) = -Ang.piQuarter 2 := by
-  apply Ang.ext' <;> simp [Ang.neg_def, Ang.neg, Ang.piQuarter]
-
-/-- RY(−π/2) and RX(π/2) as explicit matrices -/
-theorem ry_minus_half_pi (k : Consts S) (L : k.Laws) (hp : HalfPi k) :
-    baseMatrix k .RY (Ang.piQuarter (-2)) = ⟨k.rsqrt2, k.rsqrt2, -k.rsqrt2, k.rsqrt2⟩ := by
-  have hc := cos_half_pi k L hp
-  have hm := misin_half_pi k L hp
-  rw [neg_quarter]
-  apply M2.ext' <;> simp only [baseMatrix, Consts.sinH, L.cos_neg, L.misin_neg, hc, hm] <;>
-    first | ring1 | linear_combination (-k.rsqrt2) * L.i_sq | linear_combination k.rsqrt2 * L.i_sq
-
-theorem rx_half_pi (k : Consts S) (L : k.Laws) (hp : HalfPi k) :
-    baseMatrix k .RX (Ang.piQuarter 2) = ⟨k.rsqrt2, -(k.i * k.rsqrt2), -(k.i * k.rsqrt2), k.rsqrt2⟩ := by
-  apply M2.ext' <;> simp only [baseMatrix, cos_half_pi k L hp, misin_half_pi k L hp]
 
 /-- the rotations `measurement_basis_gates` emits: X ↦ RY(−π/2), Y ↦ RX(π/2), Z ↦ nothing -/
 def docRot (k : Consts S) : Pauli → M2 S
